@@ -835,3 +835,4 @@ def run(ctx):
   r7_selection_simulation(ctx)
   r8_calibrate_then_plan(ctx)
   r9_signature_subgraph_table(ctx)
+  shared.rule_no_swallowed_errors(ctx, 'C10.R10')
